@@ -1,5 +1,6 @@
 """C10 — the front end is total: any input gives a configuration or a configuration error."""
 import collections
+import copy
 import io
 import multiprocessing as mp
 import os
@@ -32,14 +33,19 @@ def _alarm(signum, frame):
     raise Hang()
 
 
-def load_and_generate(text, paths, outdir):
-    """('accept', compile status) | ('reject', class) | ('crash', exception) | ('hang',)"""
+def load_and_generate(text, paths, outdir, path=None):
+    """('accept', compile status) | ('reject', class) | ('crash', exception) | ('hang',).
+    With `path`, the file is opened in text mode as the command-line tool does (decoding errors included)."""
     b = common.barectf()
     signal.signal(signal.SIGALRM, _alarm)
     signal.alarm(TIMEOUT)
     try:
         try:
-            cfg = b.configuration_from_file(io.StringIO(text), inclusion_directories=paths)
+            if path is not None:
+                with open(path) as fobj:
+                    cfg = b.configuration_from_file(fobj, inclusion_directories=paths)
+            else:
+                cfg = b.configuration_from_file(io.StringIO(text), inclusion_directories=paths)
         except b._ConfigurationParseError as exc:
             if not exc.context or not any(c.name for c in exc.context):
                 return ('crash', 'configuration error without a context path', '')
@@ -86,7 +92,10 @@ def corrupt_bytes(rnd, text):
         else:
             j = rnd.randrange(len(b))
             b[i:i + 10] = b[j:j + 10]
-    return b.decode('utf-8', errors='replace')
+    if rnd.random() < 0.15:
+        i = rnd.randrange(len(b))
+        b[i:i] = rnd.choice([b'\xff', b'\xc3\x28', b'\xed\xa0\x80', b'\xfe\xff'])      # invalid UTF-8
+    return bytes(b)
 
 
 def worker(task):
@@ -126,6 +135,44 @@ def worker(task):
                     docs.append((m, dirs, what))
             except Exception:
                 continue
+        # faults of the documented-constraint catalogue too (cycles, unknown names, bad kinds...): for this
+        # property they only have to end in a configuration error
+        if dialect == 3 and dirs == [{}]:
+            app = faults.applicable(cfg)
+            rnd.shuffle(app)
+            for oi, site in app[:max(3, nmut // 2)]:
+                try:
+                    m = faults.apply(cfg, oi, site, rnd)
+                except Exception:
+                    m = None
+                if m is not None:
+                    docs.append((m, dirs, 'catalogue:' + faults.OPS[oi][0]))
+        if dialect == 2:
+            for shape in rnd.sample(['member', 'element', 'inherit', 'chain'], 2):
+                m = copy.deepcopy(cfg)
+                meta = m.get('metadata')
+                if isinstance(meta, dict) and '$include' not in meta and isinstance(meta.get('streams'), dict):
+                    al = meta.get('type-aliases')
+                    if not isinstance(al, dict):
+                        al = {}
+                        meta['type-aliases'] = al
+                    if shape == 'member':
+                        al['cyc'] = {'class': 'struct', 'fields': {'v': {'class': 'int', 'size': 8}, 'next': 'cyc'}}
+                    elif shape == 'element':
+                        al['cyc'] = {'class': 'array', 'length': 2, 'element-type': 'cyc'}
+                    elif shape == 'inherit':
+                        al['cyc'] = {'$inherit': 'cyc2', 'size': 8}
+                        al['cyc2'] = {'inherit': 'cyc'}
+                    else:
+                        al['cyc'] = 'cyc2'
+                        al['cyc2'] = 'cyc3'
+                        al['cyc3'] = 'cyc'
+                    st = rnd.choice(list(meta['streams'].values()))
+                    if isinstance(st, dict) and isinstance(st.get('events'), dict) and st['events']:
+                        ev = rnd.choice(list(st['events'].values()))
+                        if isinstance(ev, dict):
+                            ev['payload-type'] = {'class': 'struct', 'fields': {'c': 'cyc'}}
+                            docs.append((m, dirs, 'v2-alias-cycle:' + shape))
         for i, (doc, dd, what) in enumerate(docs):
             w = hfront.World(dd, False, True, dialect)
             wd = os.path.join(workdir, f'v{dialect}_{i}')
@@ -147,9 +194,13 @@ def worker(task):
         w = hfront.World(dirs, False, True, dialect)
         w.materialise(os.path.join(workdir, f'b{dialect}'))
         for i in range(nbytes):
-            t = corrupt_bytes(rnd, base_text)
-            out = load_and_generate(t, w.paths, os.path.join(workdir, f'b{dialect}', f'gen{i}'))
-            recs.append({'dialect': dialect, 'what': 'bytes', 'text': t, 'dirs': dirs, 'out': list(out), 'kind': 'bytes', 'tree': None})
+            raw = corrupt_bytes(rnd, base_text)
+            fp = os.path.join(workdir, f'b{dialect}', f'in{i}.yaml')
+            with open(fp, 'wb') as fb:
+                fb.write(raw)
+            out = load_and_generate(None, w.paths, os.path.join(workdir, f'b{dialect}', f'gen{i}'), path=fp)
+            recs.append({'dialect': dialect, 'what': 'bytes', 'text': raw.decode('latin-1'), 'encoding': 'latin-1 (raw bytes)',
+                         'dirs': dirs, 'out': list(out), 'kind': 'bytes', 'tree': None})
     return recs
 
 
@@ -162,7 +213,8 @@ def cli_runs(c, work, samples):
         w = hfront.World(rec['dirs'], False, True, rec['dialect'])
         w.materialise(d)
         cfgp = os.path.join(d, 'config.yaml')
-        open(cfgp, 'w').write(rec['text'])
+        with open(cfgp, 'wb') as fb:
+            fb.write(rec['text'].encode('latin-1') if rec.get('encoding') else rec['text'].encode())
         gen = os.path.join(d, 'out')
         os.makedirs(gen)
         cmd = ['/venv/bin/barectf', 'generate', '-c', gen, '-H', gen, '-m', gen]
@@ -204,7 +256,13 @@ def run(c):
         wt = json.load(open(os.path.join(common.VERIF, e['witness'])))
         w = hfront.World(wt['dirs'], False, True, wt.get('dialect', 3))
         w.materialise(os.path.join(work, 'wit_' + e['id']))
-        out = load_and_generate(wt['doc_yaml'], w.paths, os.path.join(work, 'wit_' + e['id'], 'gen'))
+        if wt.get('encoding'):
+            fp = os.path.join(work, 'wit_' + e['id'], 'in.yaml')
+            with open(fp, 'wb') as fb:
+                fb.write(wt['doc_yaml'].encode('latin-1'))
+            out = load_and_generate(None, w.paths, os.path.join(work, 'wit_' + e['id'], 'gen'), path=fp)
+        else:
+            out = load_and_generate(wt['doc_yaml'], w.paths, os.path.join(work, 'wit_' + e['id'], 'gen'))
         wst[e['id']] = out[0] + ((':' + out[1]) if len(out) > 1 else '')
         if out[0] in ('crash', 'hang') or (out[0] == 'accept' and out[1] != 'ok'):
             c.violation(dict(wt, property='C10', kind='a repaired finding is back: ' + e['line'], outcome=list(out)))
@@ -220,8 +278,10 @@ def run(c):
         st[f'{r["kind"]}_v{r["dialect"]}'] += 1
         st['outcome_' + o[0] + ('_' + o[1] if o[0] == 'accept' else '')] += 1
         if r['kind'] == 'structural':
-            ops[r['what'].split('@')[0].replace('inc:', '')] += 1
+            ops[r['what'].split('@')[0].replace('inc:', '').split(':')[0]] += 1
         rep = {'property': 'C10', 'dialect': r['dialect'], 'fault': r['what'], 'doc_yaml': r['text'], 'dirs': r['dirs'], 'outcome': o}
+        if r.get('encoding'):
+            rep['encoding'] = r['encoding']
         if o[0] == 'crash':
             c.violation(dict(rep, kind=f'loading raises {o[1]} instead of a configuration error'))
         elif o[0] == 'hang':
@@ -284,7 +344,13 @@ def replay(c, path):
     work = common.scratch()
     w = hfront.World(rep['dirs'], False, True, rep.get('dialect', 3))
     w.materialise(os.path.join(work, 'w'))
-    out = load_and_generate(rep['doc_yaml'], w.paths, os.path.join(work, 'gen'))
+    if rep.get('encoding'):
+        fp = os.path.join(work, 'in.yaml')
+        with open(fp, 'wb') as fb:
+            fb.write(rep['doc_yaml'].encode('latin-1'))
+        out = load_and_generate(None, w.paths, os.path.join(work, 'gen'), path=fp)
+    else:
+        out = load_and_generate(rep['doc_yaml'], w.paths, os.path.join(work, 'gen'))
     print('outcome:', out)
     c.coverage.update({'obligations': 1, 'discharged': 1, 'checker_cmd': 'replay of ' + path})
     if out[0] in ('crash', 'hang') or (out[0] == 'accept' and out[1] != 'ok'):
